@@ -24,12 +24,18 @@ Proof. unfold be_num, be_bytes. rewrite rev_involutive. apply le_num_le_bytes. Q
 Lemma take_app a : forall r, take (length a) (a ++ r) = Some (a, r).
 Proof. induction a as [|x a IH]; intros r; cbn [length take app]; [reflexivity | rewrite IH; reflexivity]. Qed.
 
-Lemma take_n_app a r : take_n (N.of_nat (length a)) (a ++ r) = Some (a, r).
+Lemma take_nl_app a : forall r acc, take_nl (a ++ r) (N.of_nat (length a)) acc = Some (rev acc ++ a, r).
 Proof.
-  unfold take_n. rewrite app_length, Nat2N.id.
-  replace (N.of_nat (length a + length r) <? N.of_nat (length a)) with false by lia.
-  apply take_app.
+  induction a as [|c a IH]; intros r acc.
+  - cbn [length app]. destruct r; cbn; rewrite rev_append_rev, !app_nil_r; reflexivity.
+  - cbn [length app take_nl].
+    replace (N.of_nat (S (length a)) =? 0) with false by lia.
+    replace (N.pred (N.of_nat (S (length a)))) with (N.of_nat (length a)) by lia.
+    rewrite IH. cbn [rev]. rewrite <- app_assoc. reflexivity.
 Qed.
+
+Lemma take_n_app a r : take_n (N.of_nat (length a)) (a ++ r) = Some (a, r).
+Proof. unfold take_n. rewrite take_nl_app. reflexivity. Qed.
 
 (* ---------- running the machine ---------- *)
 Section Run.
